@@ -68,8 +68,8 @@ TEXT.update({
 })
 TEXT.update({
  "C14": dict(
-  level="Theorems: the verdict is independent of the hash function (any seed, any process); is the same for JSON-equal instances, i.e. independent of the order in which any map of the instance lists its members and of number representation (spec_eval_comp over the whole specification, C14_instance_order); is independent of the order in which the maps of the schema hold their entries - properties, patternProperties, dependentSchemas, dependentRequired, dependencies in both forms, at every depth and in every schema a reference leads to (C14_schema_map_order: environments related by srel/erel, a generated relation over all 65 fields, give the same verdict; obligation gen/ObRanges.v, regenerated from the sources on every run: state.validate ranges over no other map); is a function of the resolved schema and the JSON value alone; and Marshal's output is independent of the order in which any map is listed. Purity (nothing is written to the Schema tree, the loader's documents or the instance) holds in the model by construction (immutable values) and is decided for the package by the correspondence family pure: reflection snapshots before/after, three Resolves, repeated and rebuilt-map validations, repeated Marshal, and a second process whose observation file must be byte-identical.",
-  note="Partial: that Resolve maps schemas differing only in map order to related environments is not proved (it is by construction of the walk over sorted children); the memory effects of the package are observed by snapshots, which trust the reflection walk.",
+  level="Theorems: the verdict is independent of the hash function (any seed, any process); is the same for JSON-equal instances, i.e. independent of the order in which any map of the instance lists its members and of number representation (spec_eval_comp over the whole specification, C14_instance_order); is independent of the order in which the maps of the schema hold their entries - properties, patternProperties, dependentSchemas, dependentRequired, dependencies in both forms, at every depth and in every schema a reference leads to (C14_schema_map_order: environments related by srel/erel, a generated relation over all 65 fields, give the same verdict; obligation gen/ObRanges.v, regenerated from the sources on every run: state.validate ranges over no other map); Schema.Resolve itself maps schema trees and Loader documents that differ only in the order of map entries to the same outcome, the same Loader calls in the same order and erel-related Resolved values (C14_resolve_map_order, C14_resolve_validate_map_order: Resolve followed by Validate gives one verdict whatever order Go ranges its maps in); is a function of the resolved schema and the JSON value alone; and Marshal's output is independent of the order in which any map is listed. Purity (nothing is written to the Schema tree, the loader's documents or the instance) holds in the model by construction (immutable values) and is decided for the package by the correspondence family pure: reflection snapshots before/after, three Resolves, repeated and rebuilt-map validations, repeated Marshal, and a second process whose observation file must be byte-identical.",
+  note="Partial: the memory effects of the package are observed by snapshots, which trust the reflection walk.",
  ),
 })
 TEXT.update({
